@@ -4,9 +4,16 @@ import OrsoVerif.Model.Validate
 namespace Drv.C05
 open Validate
 
+def decodeStrs : List PyVal → Option (List String)
+  | [] => some []
+  | .str s :: rest => (decodeStrs rest).map (s :: ·)
+  | _ => none
+
 def decodeCol : PyVal → Option Column
-  | .list [.str n, .none, .bool nl] => some ⟨n, none, nl⟩
-  | .list [.str n, .str t, .bool nl] => some ⟨n, some t, nl⟩
+  | .list [.str n, .none, .bool nl] => some ⟨n, none, nl, []⟩
+  | .list [.str n, .str t, .bool nl] => some ⟨n, some t, nl, []⟩
+  | .list [.str n, .none, .bool nl, .list al] => (decodeStrs al).map fun a => ⟨n, none, nl, a⟩
+  | .list [.str n, .str t, .bool nl, .list al] => (decodeStrs al).map fun a => ⟨n, some t, nl, a⟩
   | _ => none
 
 def decodeVal : PyVal → Option Value
@@ -16,6 +23,17 @@ def decodeVal : PyVal → Option Value
 
 def decodeRecord (kvs : List (String × PyVal)) : Option Record :=
   kvs.mapM fun (k, v) => (decodeVal v).map fun x => (k, x)
+
+/-- a record to append: a dict (its row can be sized) or `[dict, sizable]` -/
+def decodeAppend : PyVal → Option (Record × Bool)
+  | .dict kvs => (decodeRecord kvs).map fun r => (r, true)
+  | .list [.dict kvs, .bool z] => (decodeRecord kvs).map fun r => (r, z)
+  | _ => none
+
+def decodeRows (rows : List PyVal) : Option (List (List Value)) :=
+  rows.mapM fun r => match r with
+    | .list xs => xs.mapM decodeVal
+    | _ => none
 
 def encodeVal : Value → PyVal
   | none => .none
@@ -27,6 +45,33 @@ def encodeOutcome : Outcome → PyVal
   | .ok => .list [.str "ok"]
   | .excess ks => .list [.str "excess", strs ks]
   | .invalid m n w => .list [.str "invalid", strs m, strs n, strs w]
+  | .other => .list [.str "other"]
+
+def encodeResult : AppendResult → PyVal
+  | .ok => .list [.str "ok"]
+  | .rejected o => .list [.str "rejected", encodeOutcome o]
+  | .unsizable => .list [.str "unsizable"]
+  | .malformed => .list [.str "malformed"]
+
+def encodeRows (rows : List (List Value)) : PyVal := .list (rows.map fun r => .list (r.map encodeVal))
+
+def decodeOp : PyVal → Option Op
+  | .list [.str "validate", .dict kvs] => (decodeRecord kvs).map .validate
+  | .list [.str "add", c] => (decodeCol c).map .addCol
+  | .list [.str "insert", .int i, c] => (decodeCol c).map (.insertCol i.toNat)
+  | .list [.str "del", .int i] => some (.delCol i.toNat)
+  | .list [.str "pop", .str n] => some (.popCol n)
+  | .list [.str "replace", .list cs] => (cs.mapM decodeCol).map .replaceCols
+  | .list [.str "set", .int i, c] => (decodeCol c).map (.setCol i.toNat)
+  | .list [.str "frame", .list rows, .list recs] => do
+    let rows ← decodeRows rows
+    let recs ← recs.mapM decodeAppend
+    pure (.frame rows recs)
+  | _ => none
+
+def encodeOut : Out → PyVal
+  | .outcome o => .list [.str "outcome", encodeOutcome o]
+  | .frame rows results => .list [.str "frame", encodeRows rows, .list (results.map encodeResult)]
 
 def handle (op : String) (args : List PyVal) : Option (List PyVal) :=
   match op, args with
@@ -36,14 +81,14 @@ def handle (op : String) (args : List PyVal) : Option (List PyVal) :=
     pure [encodeOutcome (validate s r)]
   | "appends", [.list cols, .list rows, .list recs] => do
     let s ← cols.mapM decodeCol
-    let rows ← rows.mapM fun r => match r with
-      | .list xs => xs.mapM decodeVal
-      | _ => none
-    let recs ← recs.mapM fun r => match r with
-      | .dict kvs => decodeRecord kvs
-      | _ => none
-    let out := appends s rows recs
-    pure [.list (out.map fun r => .list (r.map encodeVal)), .list (recs.map fun r => encodeOutcome (validate s r))]
+    let rows ← decodeRows rows
+    let recs ← recs.mapM decodeAppend
+    pure [encodeRows (appends s rows recs), .list (recs.map fun p => encodeOutcome (validate s p.1)),
+          .list ((appendResults s rows recs).map encodeResult)]
+  | "session", [.list cols, .list ops] => do
+    let s ← cols.mapM decodeCol
+    let ops ← ops.mapM decodeOp
+    pure [.list ((run s ops).map encodeOut), .list ((exec s ops).map fun c => .str c.name)]
   | _, _ => none
 
 end Drv.C05
